@@ -4,7 +4,9 @@ package main
 // identical on repeated runs.
 //
 //  gen   harness/dctab: the dc tables, code-embedded index patterns and the determinism scan of
-//        the CURRENT source -> coq/Generated/DCTables.v
+//        the CURRENT source -> coq/Generated/DCTables.v; the code of the V1 octree traversal
+//        (contourCellProc, dcContourFaceProc, dcContourEdgeProc, dcContourProcessEdge) translated
+//        from the Go AST -> coq/Generated/DCProc.v (proved equal to the model in coq/Algo/DCProcEq.v)
 //  run   (a) sign grids: lattice fields realising arbitrary sign assignments are rendered by the
 //            real V1/V2 code (through the hooks: index buffer / cell triples); the Gallina models
 //            coq/Algo/DCModel.v (v1_mesh, v2_mesh) are evaluated on the same grids inside coqc
@@ -34,7 +36,8 @@ import (
 )
 
 func main() {
-	Main("C19", check, func(c *Ctx) (string, []byte, error) { return dctab.Gen(c.Repo) })
+	Main("C19", check, func(c *Ctx) (string, []byte, error) { return dctab.Gen(c.Repo) },
+		func(c *Ctx) (string, []byte, error) { return dctab.GenProc(c.Repo) })
 }
 
 // ---------------------------------------------------------------- lattice fields
@@ -45,6 +48,7 @@ type gridField struct {
 	n     [3]int
 	val   []float64 // (nx+1)(ny+1)(nz+1), x-major
 	evals int
+	box   *[3]int // bounding box [0,box] when it is smaller than the lattice
 }
 
 func (g *gridField) at(x, y, z int) float64 {
@@ -66,12 +70,18 @@ func (g *gridField) Evaluate(p v3.Vec) float64 {
 	return lerp(lerp(c00, c10, ty), lerp(c01, c11, ty), tz)
 }
 func (g *gridField) BoundingBox() sdf.Box3 {
+	if g.box != nil {
+		return sdf.Box3{Min: v3.Vec{}, Max: v3.Vec{X: float64(g.box[0]), Y: float64(g.box[1]), Z: float64(g.box[2])}}
+	}
 	return sdf.Box3{Min: v3.Vec{}, Max: v3.Vec{X: float64(g.n[0]), Y: float64(g.n[1]), Z: float64(g.n[2])}}
 }
 
 type signGrid struct {
 	N     [3]int `json:"n"`
 	Solid []int  `json:"solid"` // indices (x-major over the (n+1)^3 points) of solid points
+	// Box, when set, is the rendered volume [0,Box] inside the lattice [0,N] (V1 correspondence only: the
+	// field is then defined, and possibly solid, in the padding the cubic octree samples beyond the volume)
+	Box *[3]int `json:"box,omitempty"`
 }
 
 func (sg signGrid) npoints() int { return (sg.N[0] + 1) * (sg.N[1] + 1) * (sg.N[2] + 1) }
@@ -83,6 +93,9 @@ func (sg signGrid) bits() *big.Int {
 	return b
 }
 func (sg signGrid) key() string {
+	if sg.Box != nil {
+		return fmt.Sprintf("%dx%dx%d/box%dx%dx%d:%s", sg.N[0], sg.N[1], sg.N[2], sg.Box[0], sg.Box[1], sg.Box[2], sg.bits().Text(62))
+	}
 	return fmt.Sprintf("%dx%dx%d:%s", sg.N[0], sg.N[1], sg.N[2], sg.bits().Text(62))
 }
 func (sg signGrid) idx(x, y, z int) int { return (x*(sg.N[1]+1)+y)*(sg.N[2]+1) + z }
@@ -101,7 +114,7 @@ func (sg signGrid) boundaryOutside() bool {
 	return true
 }
 func (sg signGrid) field(rng *Rng) *gridField {
-	g := &gridField{n: sg.N, val: make([]float64, sg.npoints())}
+	g := &gridField{n: sg.N, val: make([]float64, sg.npoints()), box: sg.Box}
 	for i := range g.val {
 		g.val[i] = 0.25 + 0.75*float64(rng.Intn(4))/4 // 0.25, 0.4375, 0.625, 0.8125 (dyadic)
 	}
@@ -881,6 +894,7 @@ func check(c *Ctx, r *Report) error {
 	imports := "From Sdfx Require Import Algo.DualGrid Algo.DCModel.\nOpen Scope Z_scope."
 	cs1 := &Cases{Kind: "v1", Imports: imports, Type: "DCModel.case1", Fn: "DCModel.mismatches1", PerShard: 40}
 	cs2 := &Cases{Kind: "v2", Imports: imports, Type: "DCModel.case2", Fn: "DCModel.mismatches2", PerShard: 60}
+	cs1p := &Cases{Kind: "v1p", Imports: "From Sdfx Require Import Algo.DualGrid Algo.DCModel Algo.DCPrune.\nOpen Scope Z_scope.", Type: "DCPrune.case1p", Fn: "DCPrune.mismatches1p", PerShard: 40}
 	id := 0
 
 	v2Grid := func(stratum string, sg signGrid) {
@@ -932,6 +946,46 @@ func check(c *Ctx, r *Report) error {
 		if sg.boundaryOutside() {
 			if why := unbalancedI(ts); why != "" {
 				r.Violate(key, "V1 index triangles not closed on a sign grid with outside boundary: "+why, sg)
+			} else if len(ts) > 0 && !(signedVolumeI(ts) > 0) {
+				r.Violate(key, fmt.Sprintf("V1 index triangles enclose signed volume %g (cell units), not positive", signedVolumeI(ts)), sg)
+			}
+		}
+	}
+
+	// V1 on a non-cubic volume (power-of-two cell counts, not all equal): the cubic octree is pruned by
+	// Populate's out-of-volume filter and samples the padding beyond the box; compared with the pruned model
+	v1GridP := func(stratum string, sg signGrid) {
+		id++
+		g := sg.field(rng)
+		cc := sg.N
+		if sg.Box != nil {
+			cc = *sg.Box
+		}
+		mc := maxi(cc[0], maxi(cc[1], cc[2]))
+		d := log2(mc)
+		m := dc.VerifV1Buffers(dc.NewDualContouringV1(-1, 0, true), g, mc)
+		key := "v1pgrid:" + sg.key()
+		if m.CellCounts.X != cc[0] || m.CellCounts.Y != cc[1] || m.CellCounts.Z != cc[2] || m.MeshSize != mc {
+			r.Violate(key, fmt.Sprintf("harness: octree of %v cells (size %d) for the %v volume", m.CellCounts, m.MeshSize, cc), sg)
+			return
+		}
+		var ts []itri
+		for i := 0; i+2 < len(m.Indices); i += 3 {
+			ts = append(ts, itri{m.Cells[m.Indices[i]], m.Cells[m.Indices[i+1]], m.Cells[m.Indices[i+2]]})
+		}
+		cs1p.Add(fmt.Sprintf("(%d%%N, %d%%nat, (%d,%d,%d), (%d,%d,%d), %s%%N, %s)", id, d, cc[0], cc[1], cc[2], sg.N[0], sg.N[1], sg.N[2], sg.bits().String(), trisTerm(ts)))
+		if sg.Box != nil {
+			// outside the class (field not outside beyond the volume): correspondence of the pruned model only
+			r.Case("v1-grid-padding/"+stratum, key, len(ts) > 0)
+			return
+		}
+		r.Case("v1-grid-noncubic/"+stratum, key, len(ts) > 0)
+		if id%41 == 3 {
+			r.Sample(map[string]interface{}{"kind": "v1-grid-noncubic", "n": sg.N, "solid_points": len(sg.Solid), "triangles": len(ts)})
+		}
+		if sg.boundaryOutside() {
+			if why := unbalancedI(ts); why != "" {
+				r.Violate(key, "V1 index triangles not closed on a non-cubic sign grid with outside boundary: "+why, sg)
 			} else if len(ts) > 0 && !(signedVolumeI(ts) > 0) {
 				r.Violate(key, fmt.Sprintf("V1 index triangles enclose signed volume %g (cell units), not positive", signedVolumeI(ts)), sg)
 			}
@@ -1161,13 +1215,15 @@ func check(c *Ctx, r *Report) error {
 		}
 		for _, fi := range rp.FailingInputs {
 			switch {
-			case strings.HasPrefix(fi.Key, "v1grid:"), strings.HasPrefix(fi.Key, "v2grid:"):
+			case strings.HasPrefix(fi.Key, "v1grid:"), strings.HasPrefix(fi.Key, "v2grid:"), strings.HasPrefix(fi.Key, "v1pgrid:"):
 				var sg signGrid
 				if err := json.Unmarshal(fi.Input, &sg); err != nil {
 					return err
 				}
 				if strings.HasPrefix(fi.Key, "v1grid:") {
 					v1Grid("replay", sg)
+				} else if strings.HasPrefix(fi.Key, "v1pgrid:") {
+					v1GridP("replay", sg)
 				} else {
 					v2Grid("replay", sg)
 				}
@@ -1200,6 +1256,9 @@ func check(c *Ctx, r *Report) error {
 			}
 		}
 		if err := cs1.Write(c.Out); err != nil {
+			return err
+		}
+		if err := cs1p.Write(c.Out); err != nil {
 			return err
 		}
 		return cs2.Write(c.Out)
@@ -1237,7 +1296,37 @@ func check(c *Ctx, r *Report) error {
 		st := strata[(k/3)%len(strata)]
 		v1Grid(st, genGrid(rng, [3]int{1 << d, 1 << d, 1 << d}, st))
 	}
+	// non-cubic volumes: every pair/triple of distinct power-of-two counts up to 8 (16 in the long tiers)
+	n1p := TierN(c.Tier, 60, 800, 250)
+	for k := 0; k < n1p; k++ {
+		top := 3
+		if c.Tier != "quick" && k%10 == 9 {
+			top = 4
+		}
+		var n [3]int
+		for {
+			n = [3]int{1 << rng.Range(1, top), 1 << rng.Range(1, top), 1 << rng.Range(1, top)}
+			if n[0] != n[1] || n[1] != n[2] {
+				break
+			}
+		}
+		st := strata[(k/2)%len(strata)]
+		if k%3 == 2 {
+			// the lattice is the whole cube; the volume n is smaller, so the padding carries signs too and the
+			// nodes Populate stops are not dead: the pruned model must drop exactly the same triangles
+			mc := maxi(n[0], maxi(n[1], n[2]))
+			sg := genGrid(rng, [3]int{mc, mc, mc}, st)
+			box := n
+			sg.Box = &box
+			v1GridP(st, sg)
+			continue
+		}
+		v1GridP(st, genGrid(rng, n, st))
+	}
 	if err := cs1.Write(c.Out); err != nil {
+		return err
+	}
+	if err := cs1p.Write(c.Out); err != nil {
 		return err
 	}
 	if err := cs2.Write(c.Out); err != nil {
@@ -1416,9 +1505,10 @@ func check(c *Ctx, r *Report) error {
 	}
 	r.Coverage["state_cases_with_raycast_fallback"] = fallbackSeen
 
-	r.Rule = "grid cases: sign assignments on small lattices (V2: 1..7 cells per axis, V1: octree depth 1..3, 4 in the long tiers) in strata empty / single solid point / sparse / half / dense / full interior / checkerboard / union of boxes (all with outside boundary) and boundary-solid (outside the class, correspondence only), realised by a trilinear lattice field and rendered by the real code; the triangle list in cell indices is compared, in order, with the Gallina model evaluated on the same grid; non-trivial = at least one triangle, distinct by (lattice size, sign bits). render cases: sphere, box, rotated box, rounded box, box minus sphere, cylinder minus cylinder, union of spheres, each in an asymmetrically enlarged box, 6..27 (40) cells, V1 (lock on, no simplification, three rcond values) and V2 (FarAway in {0.25,0.4,0.499999,0.5}, CenterPush in {0.01,0.1,1}); non-trivial = produced triangles, distinct by full parameter record. aligned strata: boxes and spheres with faces/poles on lattice planes, dyadic and NON-dyadic steps (0.15, 0.05, 0.07, any two-decimal step), centred and translated, 8/16/32 cells, cubic and 2:1:1 volumes; for these and every render case the index-space mesh from the hooks must be closed and all voxels sharing a lattice corner must agree on its sign. v2-nopush / v2-knobs: V2 with CenterPush = 0 (or 1e-6..5), FarAway 0.1..0.5 and five ray-cast knob settings on boxes, cylinders, L prisms, CSG; non-lipschitz: spheres, boxes, rotated boxes, cylinders scaled by 0.3..0.6 per axis (or one axis only), bars twisted 2.5..4.5 rad over height 2, extrusions tapered to 0.2..0.5, V1 and V2 - the |f(v)| <= diagonal oracle is waived there (f is no distance bound), every other oracle applies. Every render case: all lattice points are evaluated and the index triangles compared as a multiset with one oriented quad per sign-changing interior lattice edge (skipped when a lattice value is within 1e-12 of zero; counted in reference_compared/skipped). v2-solver: 1..9 planes with unit normals (generic, three planes, axis-parallel with zero rows/columns with and without push, rank 1, rank 2, singular three-plane systems, guard threshold diag(1,1,1e-12 +- 1ulp), times 1e60..1e200 and 1e-3..1e-160), result compared bit for bit with the float model and required to be a finite point or the +Inf refusal (moderate scales). state cases: ONE renderer value renders a non-uniformly scaled shape twice (sdf.Scale3d: the field over-estimates distance, the V2 ray cast fails and the warn-once flags get set; counted in state_cases_with_raycast_fallback) and then a plain shape, compared bit for bit with itself and with a fresh renderer; V1 and V2, all settings."
+	r.Rule = "grid cases: sign assignments on small lattices (V2: 1..7 cells per axis, V1: octree depth 1..3, 4 in the long tiers; V1 also on non-cubic volumes of 2/4/8 (16) cells per axis inside the cubic octree, compared with the model over the octree pruned by Populate's filter, one third of them with the sign lattice extended over the padding beyond the volume so that the filter stops nodes that are NOT dead and the pruned model has to drop the same triangles - outside the class, correspondence only) in strata empty / single solid point / sparse / half / dense / full interior / checkerboard / union of boxes (all with outside boundary) and boundary-solid (outside the class, correspondence only), realised by a trilinear lattice field and rendered by the real code; the triangle list in cell indices is compared, in order, with the Gallina model evaluated on the same grid; non-trivial = at least one triangle, distinct by (lattice size, sign bits). render cases: sphere, box, rotated box, rounded box, box minus sphere, cylinder minus cylinder, union of spheres, each in an asymmetrically enlarged box, 6..27 (40) cells, V1 (lock on, no simplification, three rcond values) and V2 (FarAway in {0.25,0.4,0.499999,0.5}, CenterPush in {0.01,0.1,1}); non-trivial = produced triangles, distinct by full parameter record. aligned strata: boxes and spheres with faces/poles on lattice planes, dyadic and NON-dyadic steps (0.15, 0.05, 0.07, any two-decimal step), centred and translated, 8/16/32 cells, cubic and 2:1:1 volumes; for these and every render case the index-space mesh from the hooks must be closed and all voxels sharing a lattice corner must agree on its sign. v2-nopush / v2-knobs: V2 with CenterPush = 0 (or 1e-6..5), FarAway 0.1..0.5 and five ray-cast knob settings on boxes, cylinders, L prisms, CSG; non-lipschitz: spheres, boxes, rotated boxes, cylinders scaled by 0.3..0.6 per axis (or one axis only), bars twisted 2.5..4.5 rad over height 2, extrusions tapered to 0.2..0.5, V1 and V2 - the |f(v)| <= diagonal oracle is waived there (f is no distance bound), every other oracle applies. Every render case: all lattice points are evaluated and the index triangles compared as a multiset with one oriented quad per sign-changing interior lattice edge (skipped when a lattice value is within 1e-12 of zero; counted in reference_compared/skipped). v2-solver: 1..9 planes with unit normals (generic, three planes, axis-parallel with zero rows/columns with and without push, rank 1, rank 2, singular three-plane systems, guard threshold diag(1,1,1e-12 +- 1ulp), times 1e60..1e200 and 1e-3..1e-160), result compared bit for bit with the float model and required to be a finite point or the +Inf refusal (moderate scales). state cases: ONE renderer value renders a non-uniformly scaled shape twice (sdf.Scale3d: the field over-estimates distance, the V2 ray cast fails and the warn-once flags get set; counted in state_cases_with_raycast_fallback) and then a plain shape, compared bit for bit with itself and with a fresh renderer; V1 and V2, all settings."
 	r.Trusted = append(r.Trusted,
-		"hand models coq/Algo/DCModel.v of generateTriangles and of contourCellProc/FaceProc/EdgeProc/ProcessEdge over the regenerated tables, tied by differential execution on sign grids (cases_v1_*.v, cases_v2_*.v, exact order)",
+		"hand model coq/Algo/DCModel.v of generateTriangles over the regenerated tables and code-embedded offsets, tied by differential execution on sign grids (cases_v2_*.v, exact order)",
+		"model of contourCellProc/FaceProc/EdgeProc/ProcessEdge (coq/Algo/DCModel.v): tied by translation - harness/dctab/proc.go translates the four Go functions from the AST of the current dc3v1.go (Generated/DCProc.v) and coq/Algo/DCProcEq.v proves them equal to the model for every octree, direction, buffer and fuel (C19_TRANSL_*); trusted there: the translator and the meaning of its constructs (coq/Algo/DCProcLib.v: ints as Z without overflow, arrays/slices as lists, no panics, recursion bounded by fuel), and the octree the model instantiates the code with (level/offset handles for the full-depth octree of Populate: a size-1 node is a Leaf iff its corner mask is mixed, else Internal with nil children) - that instantiation and Populate/computeOctreeLeaf are tied by differential execution (cases_v1_*.v, exact order)",
 		"float model of dcBoundVertexPosition (coq/Geo/DCVertex.v at Coq primitive floats) compared bit for bit through the hook (cases_bv_*.v); the V2 far-away clamp is inside placeVertex and only observed through the vertex oracle",
 		"float model of the V2 vertex solver determinant/solve3x3/leastSquares (coq/Geo/DCSolve.v) compared bit for bit through the hook (cases_ls_*.v)",
 		"hooks render/dc/verif_hooks_c19.go (V1: repeat the first lines of Render, then the real generateVertexIndices/contourCellProc; V2: real placeVertices/generateTriangles on a vertex buffer holding cell indices)",
@@ -1427,6 +1517,6 @@ func check(c *Ctx, r *Report) error {
 	r.Assumptions = append(r.Assumptions,
 		"the SDF is deterministic and outside (>= 0) on the boundary of the sampled box and beyond (V1 samples the padding of the power-of-two octree outside the box)",
 		"V2 drops both triangles of a quad when two of its vertices coincide exactly (Degenerate(0)); the closedness theorem is about the index mesh, the position mesh is checked by the direct oracle on every render case",
-		"V1 octree traversal: proved equal to the dual mesh for depth <= 3 and every sign assignment, compared with the model at depth 1..4, general depth not proved (v1_traversal_partial)")
+		"V1 octree traversal: proved equal to the dual mesh for EVERY depth and every sign assignment on the full-depth cubic octree (v1_traversal), and unchanged, triangle by triangle, when the nodes stopped by Populate's out-of-volume filter are removed as long as the field is outside beyond the volume (C19_v1_prune, C19_v1_populate_filter_dead; the filter predicate populate_pruned is a hand copy of the Go condition, tied by differential execution incl. cases where it stops live nodes); the models are compared with the real code at depth 1..4; simplified octrees (Simplify >= 0) are outside the theorem and covered by the cell-exhaustive reference on every render case")
 	return nil
 }
